@@ -14,7 +14,7 @@ with open(os.path.join(HERE, "seeded", "MATRIX.md"), "w") as fh:
     fh.write("# Catch matrix of the seeded breaking changes\n\nEach change: written by a fresh sub-agent from the property text only, confirmed independently "
              "(existing suite passes with it, its demonstration fails with it and passes without it), never committed to /repo. `checks that fire` is the "
              "verdict of the CURRENT checks (regenerate: `bin/seedmatrix seeded && python3 bin/seed_meta.py && python3 bin/gen_matrix_md.py`). "
-             "`first run` is what the checks said the first time they saw a round-2 change, before any rule was touched for it.\n\n")
+             "`first run` is what the checks said the first time they saw a round-2 or later change, before any rule was touched for it.\n\n")
     fh.write("| id | round | change | checks that fire (property[rules]) | first run |\n|---|---|---|---|---|\n" + "\n".join(rows) + "\n")
 rows = []
 for d in sorted(glob.glob(os.path.join(HERE, "benign", "*"))):
